@@ -485,7 +485,12 @@ def build_instance_tree(
                         vmod_arg = ast.ClassModificationArgument()
                         vmod_arg.scope = arg.scope
                         vmod_arg.value = ast.ElementModification()
-                        vmod_arg.value.component = ast.ComponentRef(name="value")
+                        # A dotted name (x.start = 1) sets that attribute,
+                        # a plain name (x = 1) sets the value.
+                        attribute = "value"
+                        if arg.value.component.child:
+                            attribute = str(arg.value.component.child[0])
+                        vmod_arg.value.component = ast.ComponentRef(name=attribute)
                         vmod_arg.value.modifications = [el_arg]
                         sym_mod.arguments.append(vmod_arg)
                     else:
@@ -538,7 +543,12 @@ def build_instance_tree(
                             vmod_arg = ast.ClassModificationArgument()
                             vmod_arg.scope = arg.scope
                             vmod_arg.value = ast.ElementModification()
-                            vmod_arg.value.component = ast.ComponentRef(name="value")
+                            # A dotted name (x.start = 1) sets that attribute,
+                            # a plain name (x = 1) sets the value.
+                            attribute = "value"
+                            if arg.value.component.child:
+                                attribute = str(arg.value.component.child[0])
+                            vmod_arg.value.component = ast.ComponentRef(name=attribute)
                             vmod_arg.value.modifications = [el_arg]
                             sym_mod.arguments.append(vmod_arg)
                         else:
